@@ -108,6 +108,63 @@ def r06_1(ctx):
     ctx.floor("R06.1", 6)
 
 
+def r06_6(ctx):
+    """Order independence of the seeds *at the point of use*: a node is split by the repository's own _split_exact
+    (abstractly), then the noise of its two children -- the bridge noises of the value function and the Levy-area
+    noise -- is requested in both orders.  Every seed that reaches the normal generator must be the same canonical
+    value in both orders (SeedSequence.spawn is modelled as the stateful operation it is) and a pure function of
+    (entropy, tree position, pool size)."""
+    rep, model = ctx.rep, ctx.model
+    rep.rule("R06.6", "seeds at the point of use are the same whichever child's noise is requested first, and functions of "
+                      "(entropy, tree position, pool size) only")
+    from .c04 import eval_split_exact
+    icls = model.cls(BI, "_Interval")
+    rl = model.func(BI, "_Interval._randn_levy")
+    rep.analysed(rl)
+    results = {}
+    for order in (("left", "right"), ("right", "left")):
+        node, hooks0 = eval_split_exact(model, True)
+        kids = {"left": node.attrs.get("_left_child"), "right": node.attrs.get("_right_child")}
+        if not all(isinstance(k, Obj) for k in kids.values()):
+            raise AnalysisError("_split_exact no longer stores two child nodes in _left_child / _right_child",
+                                where=astq.loc(model.func(BI, "_Interval._split_exact")))
+        seen = {}
+        for side in order:
+            hk = bk.BrownianHooks()
+            it = Interp(model, hk)
+            it.call_function(rl, [kids[side]], {})
+            seen[side] = [Rat.lift(sd) for _, sd, _, _ in hk.randn_calls]
+        results[order] = seen
+    a, b = results[("left", "right")], results[("right", "left")]
+    for side in ("left", "right"):
+        same = len(a[side]) == len(b[side]) == 1 and nf.equal(a[side][0], b[side][0])
+        rep.check(same, "R06.6", astq.loc(rl), f"{rl.key}::R06.6::order::{side}",
+                  f"the Levy-area noise of the {side} child is seeded with `{[str(x) for x in a[side]]}` when the left child is "
+                  f"asked first and with `{[str(x) for x in b[side]]}` when the right child is asked first: the value of an "
+                  f"interval would depend on what was queried before", "same seed in both orders")
+        atoms = set()
+        for x in a[side] + b[side]:
+            atoms |= {t[1] for t in nf.all_atoms(x) if t[0] in ("s", "t")}
+        bad = sorted(atoms - {"ENTROPY", "POOL", "K", "D"})
+        rep.check(not bad and all(_is_seed(x) for x in a[side] + b[side]), "R06.6", astq.loc(rl),
+                  f"{rl.key}::R06.6::provenance::{side}",
+                  f"the Levy-area seed of the {side} child `{[str(x) for x in a[side]]}` is not an output of the node's seed "
+                  f"sequence depending on (entropy, tree position, pool size) only (other symbols: {bad})",
+                  "seed = SEED[entropy, (key, depth), pool, n, i]")
+    both = a["left"] + a["right"]
+    rep.check(len(both) == 2 and not nf.equal(both[0], both[1]), "R06.6", astq.loc(rl), f"{rl.key}::R06.6::distinct",
+              "left and right child share their Levy-area seed", "distinct seeds")
+    ctx.floor("R06.6", 5)
+
+
+def _is_seed(x):
+    x = nf.reduce_sqrt(Rat.lift(x))
+    if not (x.is_poly() and x.num.is_monomial()):
+        return False
+    (m, c), = x.num.terms.items()
+    return c == 1 and len(m) == 1 and m[0][1] == 1 and m[0][0][0] == "fn" and m[0][0][1] == "SEED"
+
+
 def r06_2(ctx):
     rep, model = ctx.rep, ctx.model
     rep.rule("R06.2", "dyadic mode: the requested point never flows into the point at which a node is split")
@@ -399,3 +456,4 @@ def run(ctx):
     # the value for an interval must not depend on earlier queries: no in-place update of tensors the tree may hold
     from . import c05
     ctx.guard(c05.r05_5)
+    ctx.guard(r06_6)
